@@ -84,6 +84,8 @@ def run(repo, rep, tier):
     _reserved_rule(repo, rep)
     _nametransform_rule(repo, rep)
     _scope_rule(repo, rep)
+    L.innermost_rule(repo, rep, "R05.7", ("chameleon.compiler.Compiler",),
+                     only=("_scopes", "_aliases"))
     L.state_rule(repo, rep)
 
 
